@@ -47,3 +47,26 @@ pub fn y3_true_ceil(ann: u128, x: u128, u: u128, d: &B) -> B {
     if ok(&B::ZERO) { return B::ZERO; }
     max_true(hi, |y| !ok(y)) + B::ONE
 }
+
+/// floor of the exact two-asset stableswap invariant in the convention of terraswap_pair (ann = amp * 2):
+///   D^3 / (4 x y) + (ann - 1) D = ann (x + y)      (x, y > 0; any common unit)
+pub fn d2_true_floor(ann: u128, x: &B, y: &B) -> B {
+    let s = *x + *y;
+    let p = b(4) * *x * *y;
+    let rhs = b(ann) * s * p;
+    let annm1 = b(ann.saturating_sub(1));
+    max_true(s, |d| d.pow(3) + annm1 * *d * p <= rhs)
+}
+
+/// smallest y >= 0 with  ann*4x*y^2 + (ann*4x^2 - (ann-1)*D*4x)*y >= D^3 : the ask reserve the exact curve prescribes (rounded up)
+pub fn y2_true_ceil(ann: u128, x: &B, d: &B) -> B {
+    let k = b(4) * *x;
+    let d3 = d.pow(3);
+    let pos = b(ann) * k * *x;
+    let neg = b(ann.saturating_sub(1)) * *d * k;
+    let ok = |y: &B| -> bool { b(ann) * k * *y * *y + pos * *y >= d3 + neg * *y };
+    if ok(&B::ZERO) { return B::ZERO; }
+    let mut hi = if d.is_zero() { B::ONE } else { *d };
+    while !ok(&hi) { hi = hi * b(2); }
+    max_true(hi, |y| !ok(y)) + B::ONE
+}
